@@ -218,23 +218,26 @@ def _cvc5(job):
         os.unlink(path)
 
 
-def discharge_all(ex, obligations, workers=None, rlimit=None, second_solver=False, axioms_for=None):
-    # one query per (clause, path); verdicts are aggregated per clause name afterwards
-    groups = group(obligations)
-    jobs, owner = [], []
-    for gi, ob in enumerate(groups):
+def prepare(ex, obligations, axioms_for=None):
+    """-> list of jobs, one per (clause, path): dict(name, smt, func, clause, kind).  Runs in the symexec worker."""
+    jobs = []
+    for ob in group(obligations):
         for pc, goal in ob['parts']:
             part = {'name': ob['name'], 'pc': pc, 'goal': goal}
             extra = axioms_for(part) if axioms_for else ()
-            jobs.append((ob['name'], to_smt2(ex, part, extra), rlimit or RLIMIT, True))
-            owner.append(gi)
-    workers = workers or max(2, min(16, os.cpu_count() or 4) // 2)
+            jobs.append({'name': ob['name'], 'smt': to_smt2(ex, part, extra), 'func': ob['func'], 'clause': ob['clause'], 'kind': ob['kind']})
+    return jobs
+
+
+def solve_jobs(jobs, workers=None, rlimit=None, second_solver=False):
+    """one race (z3 | cvc5) per job; verdicts aggregated per obligation name"""
     from concurrent.futures import ThreadPoolExecutor
+    workers = workers or max(2, min(16, os.cpu_count() or 4) // 2)
+    tuples = [(j['name'], j['smt'], rlimit or RLIMIT, True) for j in jobs]
     with ThreadPoolExecutor(max_workers=workers) as pool:
-        results = list(pool.map(_race, jobs))
-    # counter-models are extracted afterwards in the main thread (the z3 Python API is not thread-safe)
+        results = list(pool.map(_race, tuples))
     nmodels = 0
-    for job, r in zip(jobs, results):
+    for job, r in zip(tuples, results):
         if r['status'] == 'refuted' and nmodels < 6:
             nmodels += 1
             try:
@@ -249,19 +252,24 @@ def discharge_all(ex, obligations, workers=None, rlimit=None, second_solver=Fals
     if second_solver:
         idx = [i for i, r in enumerate(results) if r['status'] == 'proved' and r['solver'] == 'z3']
         with ThreadPoolExecutor(max_workers=workers * 2) as pool:
-            second = list(pool.map(_cvc5, [jobs[i] for i in idx]))
+            second = list(pool.map(_cvc5, [tuples[i] for i in idx]))
         for i, r2 in zip(idx, second):
             results[i]['cvc5_recheck'] = r2['status']
-    final = []
-    for gi, ob in enumerate(groups):
-        rs = [r for r, o in zip(results, owner) if o == gi]
-        agg = {'name': ob['name'], 'func': ob['func'], 'clause': ob['clause'], 'kind': ob['kind'], 'paths': len(rs),
-               'time': sum(r['time'] for r in rs), 'solver': '+'.join(sorted({r['solver'] for r in rs}))}
+    final, index = [], {}
+    for j, r in zip(jobs, results):
+        if j['name'] not in index:
+            index[j['name']] = {'name': j['name'], 'func': j['func'], 'clause': j['clause'], 'kind': j['kind'], 'rs': []}
+            final.append(index[j['name']])
+        index[j['name']]['rs'].append(r)
+    out = []
+    for g in final:
+        rs = g.pop('rs')
+        agg = dict(g, paths=len(rs), time=sum(r['time'] for r in rs), solver='+'.join(sorted({r['solver'] for r in rs})))
         ref = [r for r in rs if r['status'] == 'refuted']
         unk = [r for r in rs if r['status'] in ('unknown', 'error')]
         if ref:
             agg['status'] = 'refuted'
-            agg['model'] = ref[0].get('model', {})
+            agg['model'] = next((r['model'] for r in ref if 'model' in r), {})
         elif unk:
             agg['status'] = 'unknown'
             agg['reason'] = unk[0].get('reason')
@@ -269,5 +277,9 @@ def discharge_all(ex, obligations, workers=None, rlimit=None, second_solver=Fals
             agg['status'] = 'proved'
         if any('cvc5_recheck' in r for r in rs):
             agg['cvc5_recheck'] = ','.join(sorted({r.get('cvc5_recheck', '-') for r in rs}))
-        final.append(agg)
-    return final
+        out.append(agg)
+    return out
+
+
+def discharge_all(ex, obligations, workers=None, rlimit=None, second_solver=False, axioms_for=None):
+    return solve_jobs(prepare(ex, obligations, axioms_for), workers, rlimit, second_solver)
